@@ -67,10 +67,12 @@ CASE_TIMEOUT = 900
 RUN_TIMEOUT = 200  # seconds per estimation (forked child); a watchdog, never a verdict
 
 N_CASES = {'quick': 108, 'thorough': 600}
+N_HISTORIES = {'quick': 36, 'thorough': 240}
 
 ALGOS = ['scipy', 'LS-newton', 'TR-newton', 'LS-BFGS', 'TR-BFGS', 'simple_bounds', 'simple_bounds_newton',
          'simple_bounds_BFGS', 'automatic']
 BOUND_CAPABLE = {'scipy', 'simple_bounds', 'simple_bounds_newton', 'simple_bounds_BFGS', 'automatic'}
+UNSAFEGUARDED = ('LS-newton', 'LS-BFGS', 'TR-newton', 'TR-BFGS')
 CONFIGS = ['none', 'inactive', 'active', 'onesided_inactive', 'onesided_active', 'multi_active']
 STARTS = ['default', 'random', 'random', 'at_bound', 'at_optimum']
 
@@ -171,6 +173,11 @@ def cases(seed, tier):
     n = N_CASES[tier]
     for i in range(n):
         out.append({'seed': seed, 'i': i, 'config': CONFIGS[i % len(CONFIGS)], 'start': STARTS[(i // len(CONFIGS)) % len(STARTS)]})
+    # histories: one BIOGEME object through 2-4 estimations
+    shapes = ['quick_then_short_estimate', 'estimate_then_estimate', 'estimate_change_quick', 'random', 'random', 'random']
+    for h in range(N_HISTORIES[tier]):
+        out.append({'seed': seed, 'i': 500000 + h, 'history': True, 'shape': shapes[h % len(shapes)],
+                    'config': CONFIGS[(h // len(shapes)) % len(CONFIGS)], 'start': STARTS[h % len(STARTS)]})
     # hand-made problems that reproduce the recorded findings at every run, whatever the seed
     out.insert(0, {'seed': seed, 'i': 900001, 'directed': 'capped_at_start', 'config': 'inactive', 'start': 'default'})
     out.insert(1, {'seed': seed, 'i': 900002, 'directed': 'nan_linesearch', 'config': 'none', 'start': 'default'})
@@ -305,6 +312,9 @@ def run_case(case):
     runs_info = []
     import tempfile
 
+    if case.get('history'):
+        return _run_history_case(rec, case, ctx)
+
     global _CRUMB
     _CRUMB = os.path.join(os.environ.get('BIOMON_WORKDIR') or tempfile.gettempdir(), f'c07_crumb_{os.getpid()}_{case["i"]}')
     for algo, mode in _plan(case):
@@ -367,6 +377,42 @@ def run_case(case):
     return rec.out()
 
 
+def _run_history_case(rec, case, ctx):
+    import tempfile
+
+    from ..worker import run_forked
+
+    global _CRUMB
+    _CRUMB = os.path.join(os.environ.get('BIOMON_WORKDIR') or tempfile.gettempdir(), f'c07_crumb_{os.getpid()}_{case["i"]}')
+    if os.path.exists(_CRUMB):
+        os.remove(_CRUMB)
+    out = run_forked(lambda _a: _history_run(ctx), None, 2 * RUN_TIMEOUT)
+    crumb = os.path.exists(_CRUMB)
+    if crumb:
+        os.remove(_CRUMB)
+    if out.get('timeout'):
+        rec.c('run_timeouts')
+    elif 'crash_signal' in out:
+        if out['crash_signal'] == 9:
+            rec.inconc('history killed by signal 9')
+        else:
+            rec.violation(f'C07/native-crash-signal-{out["crash_signal"]}' if not crumb else
+                          'C07/unsafeguarded-algorithm-continues-from-non-finite-likelihood',
+                          f'[history] process died with signal {out["crash_signal"]}' + (' after a non-finite point was handed to the likelihood' if crumb else ''),
+                          {'case': case, 'params': ctx['P'], 'options': ctx['opts']})
+    elif 'harness_error' in out:
+        raise RuntimeError(f'harness error in history: {out["harness_error"]} {out.get("tb", "")[-1500:]}')
+    else:
+        rec.n += out['n']
+        rec.keys.update(out['keys'])
+        for k, v in out['cov'].items():
+            rec.c(k, v)
+        rec.viol += out['viol'][:60]
+        rec.inconclusive += out['inconclusive']
+        rec.info['steps'] = (out.get('info') or {}).get('steps')
+    return rec.out()
+
+
 def _ll_tol(ll_max, ll_start):
     """agreement tolerance on the maximum value. The library stops on the relative gradient with typical function
     value max(|LL(start)|,1); the LL gap is second order in the gradient, hence the quadratic factor for poor starts."""
@@ -392,20 +438,14 @@ def _nonfinite_evaluations(fct):
 
 def _one_run(ctx, algo, mode):
     from ..gen import c07_problems as gp
-    from ..oracle import c07_oracle as orc
     import biogeme.biogeme as bio
-    from biogeme.parameters import Parameters
 
     case, spec, data, free, model, u, c = ctx['case'], ctx['spec'], ctx['data'], ctx['free'], ctx['model'], ctx['u'], ctx['c']
-    lo, hi, lbd, ubd, startd, ll_start = ctx['lo'], ctx['hi'], ctx['lbd'], ctx['ubd'], ctx['startd'], ctx['ll_start']
-    gscale, binding, opts, P = ctx['gscale'], ctx['binding'], ctx['opts'], ctx['P']
+    startd = ctx['startd']
+    opts = ctx['opts']
     rec = Rec(case)
-    K = len(free)
     tag = f'{algo}/{mode}'
-    wit = {'case': case, 'algorithm': algo, 'entry_point': mode, 'params': P, 'options': opts, 'family': spec['family'],
-           'N': spec['N'], 'weight': spec['weight'], 'form': spec['form'], 'beta_objects': spec['beta_objects'],
-           'oracle_constrained': {'x': dict(zip(free, c['x'].tolist())), 'LL': c['ll']},
-           'oracle_unconstrained': {'x': dict(zip(free, u['x'].tolist())), 'LL': u['ll']}, 'likelihood_at_start': ll_start}
+    wit = _witness_base(ctx, algo, mode)
 
     def viol(mech, msg, **kw):
         w = dict(wit)
@@ -413,25 +453,13 @@ def _one_run(ctx, algo, mode):
         rec.violation('C07/' + mech, f'[{tag}] {msg}', w)
 
     db, formulas, made = gp.build(spec, data)
-    pr = Parameters()
-    pr.set_value('optimization_algorithm', algo, 'Estimation')
-    pr.set_value('save_iterations', opts['save_iterations'], 'Estimation')
-    pr.set_value('generate_html', False, 'Output')
-    pr.set_value('generate_pickle', False, 'Output')
-    pr.set_value('number_of_threads', opts['number_of_threads'], 'MultiThreading')
-    pr.set_value('initial_radius', opts['initial_radius'], 'SimpleBounds')
-    pr.set_value('dogleg', opts['dogleg'], 'TrustRegion')
-    pr.set_value('second_derivatives', opts['second_derivatives'], 'SimpleBounds')
-    pr.set_value('max_iterations', opts['max_iterations'], 'SimpleBounds')
-    pr.set_value('enlarging_factor', opts['enlarging_factor'], 'SimpleBounds')
-    pr.set_value('infeasible_cg', opts['infeasible_cg'], 'SimpleBounds')
+    pr = _parameters(opts, algo)
     if opts['save_iterations']:
         # the default path reads/writes __<model>.iter in cwd: every run (a forked child) gets a fresh directory and stays there
         import tempfile
 
         os.chdir(tempfile.mkdtemp(prefix=f'c07_{case["i"]}_', dir=os.environ.get('BIOMON_WORKDIR', os.getcwd())))
     del _CALLS[:]
-    unsafeguarded = algo in ('LS-newton', 'LS-BFGS', 'TR-newton', 'TR-BFGS')
     inject_nan_hessian = case.get('directed') == 'hessian_fallback'
     try:
         bg = bio.BIOGEME(db, formulas, parameters=pr)
@@ -460,29 +488,84 @@ def _one_run(ctx, algo, mode):
     except BaseException as e:  # noqa  (a concave model with a finite maximum must be estimable)
         import traceback
 
-        nf = _nonfinite_evaluations(_CALLS[0]['fct']) if _CALLS else 0
-        rec.c(f'raised_{algo}')
-        if unsafeguarded and nf:
-            viol('unsafeguarded-algorithm-continues-from-non-finite-likelihood',
-                 f'{mode}() raised {type(e).__name__}: {str(e)[:300]} after the algorithm accepted an iterate whose likelihood is not finite '
-                 f'({nf} non-finite evaluations in the function object)', traceback=traceback.format_exc()[-1500:])
-        else:
-            viol(f'{mode}-raises-{type(e).__name__}', f'{type(e).__name__}: {e}', traceback=traceback.format_exc()[-1500:])
+        _classify_exception(rec, viol, e, algo, mode, traceback.format_exc())
         return rec.out()
-    calls = list(_CALLS)
+    _judge(rec, ctx, bg, formulas, made, res, list(_CALLS), algo, mode,
+           {'tag': tag, 'wit': wit, 'expected_start': dict(startd), 'max_iterations': opts['max_iterations'],
+            'inject_nan_hessian': inject_nan_hessian, 'key': [algo, mode], 'probe_fresh': True, 'info': rec.info})
+    return rec.out()
+
+
+
+def _witness_base(ctx, algo, mode):
+    spec, free, c, u = ctx['spec'], ctx['free'], ctx['c'], ctx['u']
+    return {'case': ctx['case'], 'algorithm': algo, 'entry_point': mode, 'params': ctx['P'], 'options': ctx['opts'], 'family': spec['family'],
+            'N': spec['N'], 'weight': spec['weight'], 'form': spec['form'], 'beta_objects': spec['beta_objects'],
+            'oracle_constrained': {'x': dict(zip(free, c['x'].tolist())), 'LL': c['ll']},
+            'oracle_unconstrained': {'x': dict(zip(free, u['x'].tolist())), 'LL': u['ll']}, 'likelihood_at_declared_start': ctx['ll_start']}
+
+
+def _parameters(opts, algo):
+    from biogeme.parameters import Parameters
+
+    pr = Parameters()
+    pr.set_value('optimization_algorithm', algo, 'Estimation')
+    pr.set_value('save_iterations', opts['save_iterations'], 'Estimation')
+    pr.set_value('generate_html', False, 'Output')
+    pr.set_value('generate_pickle', False, 'Output')
+    pr.set_value('number_of_threads', opts['number_of_threads'], 'MultiThreading')
+    pr.set_value('initial_radius', opts['initial_radius'], 'SimpleBounds')
+    pr.set_value('dogleg', opts['dogleg'], 'TrustRegion')
+    pr.set_value('second_derivatives', opts['second_derivatives'], 'SimpleBounds')
+    pr.set_value('max_iterations', opts['max_iterations'], 'SimpleBounds')
+    pr.set_value('enlarging_factor', opts['enlarging_factor'], 'SimpleBounds')
+    pr.set_value('infeasible_cg', opts['infeasible_cg'], 'SimpleBounds')
+    return pr
+
+
+def _classify_exception(rec, viol, e, algo, mode, tb):
+    """an exception out of estimate()/quick_estimate() on a concave model with a finite maximum"""
+    nf = _nonfinite_evaluations(_CALLS[0]['fct']) if _CALLS else 0
+    rec.c(f'raised_{algo}')
+    if algo in UNSAFEGUARDED and nf:
+        viol('unsafeguarded-algorithm-continues-from-non-finite-likelihood',
+             f'{mode}() raised {type(e).__name__}: {str(e)[:300]} after the algorithm accepted an iterate whose likelihood is not finite '
+             f'({nf} non-finite evaluations in the function object)', traceback=tb[-1500:])
+    else:
+        viol(f'{mode}-raises-{type(e).__name__}', f'{type(e).__name__}: {e}', traceback=tb[-1500:])
+
+
+def _judge(rec, ctx, bg, formulas, made, res, calls, algo, mode, step):
+    """post-conditions of ONE estimation (observed at the boundary), whatever happened to the object before.
+    step: tag, wit, expected_start (dict by name, or None when the statement does not fix it), max_iterations,
+    inject_nan_hessian, key, probe_fresh"""
+    from ..oracle import c07_oracle as orc
+
+    case, spec, free, model, u, c = ctx['case'], ctx['spec'], ctx['free'], ctx['model'], ctx['u'], ctx['c']
+    lo, hi, lbd, ubd = ctx['lo'], ctx['hi'], ctx['lbd'], ctx['ubd']
+    gscale, binding, opts, P = ctx['gscale'], ctx['binding'], ctx['opts'], ctx['P']
+    K = len(free)
+    tag, wit, inject_nan_hessian = step['tag'], step['wit'], step['inject_nan_hessian']
+    unsafeguarded = algo in UNSAFEGUARDED
+
+    def viol(mech, msg, **kw):
+        w = dict(wit)
+        w.update(kw)
+        rec.violation('C07/' + mech, f'[{tag}] {msg}', w)
+
     d = res.data
     rec.c(f'run_{algo}_{case["config"]}')
     rec.c(f'runs_{mode}')
     rec.c(f'runs_{algo}_{mode}')
-    rec.key(stable_hash([ctx['spec_hash'], algo, mode]))
-    info = rec.info
+    rec.key(stable_hash([ctx['spec_hash']] + list(step['key'])))
+    info = step.setdefault('info', {})
     info.update({'algo': algo, 'mode': mode, 'i': case['i']})
 
     # ---- what was returned, by NAME -----------------------------------------------------
     names = list(d.betaNames)
     if sorted(names) != free:
         viol('results-parameter-names-differ-from-free-parameters', f'betaNames={names} free parameters={free}')
-        return rec.out()
+        return
     perm = [free.index(nm) for nm in names]  # library position -> oracle position
     Pm = np.zeros((K, K))
     for i_lib, j in enumerate(perm):
@@ -502,9 +585,27 @@ def _one_run(ctx, algo, mode):
                  f'is not finite ({nf} non-finite evaluations in the function object)')
         else:
             viol('estimates-or-loglike-not-finite', f'betaValues={xlib.tolist()} logLike={d.logLike!r}')
-        return rec.out()
+        return
     ll, g, H, B = model.all(x)
     bounded_algo = algo in BOUND_CAPABLE
+    # the point this run REALLY started from = what BIOGEME handed to the algorithm (recorded by the table hook);
+    # "the initial log likelihood" of the statement is the likelihood of that point
+    expected = step['expected_start']
+    actual = None
+    if calls and calls[0].get('init_betas') is not None and len(calls[0]['init_betas']) == K:
+        actual = dict(zip(names, (float(v) for v in calls[0]['init_betas'])))
+    startd = actual if actual is not None else (expected if expected is not None else ctx['startd'])
+    ll_start = float(model.all([startd[k] for k in free], second=False)[0])
+    wit['start_handed_to_algorithm'] = actual
+    wit['start_expected'] = expected
+    wit['likelihood_at_actual_start'] = ll_start
+    if actual is not None and expected is not None:
+        rec.ev()
+        if any(abs(actual[k] - float(expected[k])) > 1e-15 * max(1.0, abs(float(expected[k]))) for k in free):
+            viol('run-did-not-start-from-the-declared-starting-values',
+                 f'declared / changed starting values {expected}, the algorithm was started at {actual}')
+        else:
+            rec.c('algorithm_started_at_declared_start')
     conv = bool(d.convergence)
     rec.c(('converged_' if conv else 'not_converged_') + algo)
     info.update({'converged': conv, 'll': float(d.logLike), 'judged': True})
@@ -522,13 +623,18 @@ def _one_run(ctx, algo, mode):
     rec.ev()
     if mode == 'estimate':
         if d.initLogLike is None or not close(d.initLogLike, ll_start, 1e-9, 1e-9):
-            viol('initloglike-differs-from-likelihood-at-start', f'initLogLike={d.initLogLike!r} likelihood at declared start={ll_start!r}')
+            viol('initloglike-differs-from-likelihood-at-start',
+                 f'initLogLike={d.initLogLike!r} but the likelihood at the point the algorithm was started from ({startd}) is {ll_start!r}')
         elif d.logLike < d.initLogLike - 1e-9 * max(1.0, abs(d.initLogLike)):
             viol('final-loglike-below-initial', f'logLike={d.logLike!r} < initLogLike={d.initLogLike!r}')
     else:
         rec.c('quick_estimate_initloglike_' + ('none' if d.initLogLike is None else 'given'))
+        if d.initLogLike is not None and not close(d.initLogLike, ll_start, 1e-9, 1e-9):
+            # quick_estimate documents that it skips the initial log likelihood; a number that is reported must still be right
+            viol('quick_estimate-reports-initloglike-of-another-start',
+                 f'initLogLike={d.initLogLike!r} but the likelihood at the point the algorithm was started from ({startd}) is {ll_start!r}')
     if d.logLike < ll_start - 1e-9 * max(1.0, abs(ll_start)):
-        viol('final-loglike-below-likelihood-at-start', f'logLike={d.logLike!r} < likelihood at the declared start {ll_start!r}')
+        viol('final-loglike-below-likelihood-at-start', f'logLike={d.logLike!r} < likelihood at the starting point {ll_start!r}')
 
     # ---- (3) reported value is the likelihood at the returned estimates ---------------------------
     rec.ev()
@@ -541,7 +647,7 @@ def _one_run(ctx, algo, mode):
             viol('loglike-differs-from-recomputed-on-same-object', f'logLike={d.logLike!r} calculate_likelihood(betaValues)={again!r}')
     except BaseException as e:  # noqa
         viol(f'recompute-raises-{type(e).__name__}', str(e))
-        return rec.out()
+        return
 
     # ---- (4) reported derivatives ---------------------------------------------------------------
     if mode == 'estimate':
@@ -575,7 +681,7 @@ def _one_run(ctx, algo, mode):
                 viol('derivatives-differ-from-recomputed-on-same-object', 'g/H/bhhh differ from calculate_likelihood_and_derivatives(betaValues)')
         except BaseException as e:  # noqa
             viol(f'recompute-derivatives-raises-{type(e).__name__}', str(e))
-            return rec.out()
+            return
     else:
         rec.c('quick_estimate_derivatives_' + ('none' if d.g is None and d.H is None and d.bhhh is None else 'given'))
 
@@ -618,7 +724,7 @@ def _one_run(ctx, algo, mode):
                          f'convergence reported at LL={d.logLike!r} but the {"bound-constrained" if bounded_algo else "unconstrained"} maximum is '
                          f'{best["ll"]!r} (tolerance {tol_ll:.3g}); cause: {info["cause"]}')
     else:
-        rec.c('not_converged_' + ('with_iteration_limit' if opts['max_iterations'] < 10 else 'without_iteration_limit'))
+        rec.c('not_converged_' + ('with_iteration_limit' if step['max_iterations'] < 10 else 'without_iteration_limit'))
 
     # ---- (6) packaging: results vs what the algorithm returned ----------------------------------------
     if not calls:
@@ -638,13 +744,10 @@ def _one_run(ctx, algo, mode):
             if call['convergence'] != conv:
                 viol('results-convergence-flag-differs-from-algorithm', f'algorithm returned convergence={call["convergence"]}, results say {conv}')
         # plumbing is recorded for coverage (no verdict: the statement constrains the outcome, not the hand-over)
-        if call['init_betas'] is not None and len(call['init_betas']) == K and all(
-                abs(call['init_betas'][i_lib] - startd[nm]) <= 1e-15 for i_lib, nm in enumerate(names)):
-            rec.c('algorithm_started_at_declared_start')
         if call['bounds'] is not None and len(call['bounds']) == K and all(
                 call['bounds'][i_lib] == [lbd[nm], ubd[nm]] for i_lib, nm in enumerate(names)):
             rec.c('algorithm_received_declared_bounds')
-        if (call['parameters'] or {}).get('maxiter') == opts['max_iterations']:
+        if (call['parameters'] or {}).get('maxiter') == step['max_iterations']:
             rec.c('algorithm_received_iteration_limit')
         if (call['parameters'] or {}).get('radius') == opts['initial_radius']:
             rec.c('algorithm_received_radius')
@@ -654,7 +757,7 @@ def _one_run(ctx, algo, mode):
             rng = np.random.default_rng([int(case['seed']), int(case['i']), 5])
             x0 = np.array([startd[nm] for nm in names], dtype=float)
             typ = np.array([P[nm].get('typ', 1.0) for nm in names])
-            for where, xp in (('start', x0), ('fresh', x0 + typ * rng.uniform(-0.05, 0.05, K))):
+            for where, xp in (('start', x0), ('fresh', x0 + typ * rng.uniform(-0.05, 0.05, K)))[:2 if step['probe_fresh'] else 1]:
                 xo = np.empty(K)
                 xo[perm] = xp
                 l_o, g_o, H_o, _ = model.all(xo)
@@ -710,6 +813,136 @@ def _one_run(ctx, algo, mode):
              'after the call the Beta objects of the formulas still hold ' + ', '.join(f'{n}={v!r} (estimate {e!r})' for n, v, e in stale[:6]))
     if touched:
         viol('fixed-parameter-changed', ', '.join(f'{n}: now {v!r}, declared {e!r}' for n, v, e in touched[:6]))
+    return
+
+
+# ---------------------------------------------------------------------------------------
+# histories: ONE BIOGEME object taken through a seeded sequence of 2-4 estimations
+# ---------------------------------------------------------------------------------------
+def _history(case, ctx):
+    """seeded sequence of steps; every third history starts with the shapes under which a stale initial value shows"""
+    rng = np.random.default_rng([int(case['seed']), int(case['i']), 77])
+    free, P, u = ctx['free'], ctx['P'], ctx['u']
+    n = int(rng.integers(2, 5))
+    steps = []
+    algo = str(rng.choice(ALGOS))
+    for k in range(n):
+        mode = 'estimate' if rng.random() < 0.6 else 'quick_estimate'
+        if k > 0 and rng.random() < 0.5:
+            algo = str(rng.choice(ALGOS))
+        st = {'mode': mode, 'algo': algo, 'max_iterations': int(rng.choice([1000, 1000, 1000, 1, 2, 5])),
+              'bootstrap': int(rng.choice([0, 0, 0, 1, 2])) if mode == 'estimate' else 0, 'change_init': None}
+        if k > 0 and rng.random() < 0.35:
+            new = {}
+            for j, nm in enumerate(free):
+                t = float(P[nm].get('typ', 1.0))
+                a = P[nm]['lb'] if P[nm]['lb'] is not None else u['x'][j] - 2.0 * (abs(u['x'][j]) + 0.5 * t)
+                b = P[nm]['ub'] if P[nm]['ub'] is not None else u['x'][j] + 2.0 * (abs(u['x'][j]) + 0.5 * t)
+                new[nm] = round(float(rng.uniform(a, b)), 4)
+            st['change_init'] = new
+        steps.append(st)
+    shape = case.get('shape', 'random')
+    if shape == 'quick_then_short_estimate':
+        steps[0].update({'mode': 'quick_estimate', 'max_iterations': 1000, 'bootstrap': 0})
+        steps[1].update({'mode': 'estimate', 'max_iterations': 1, 'change_init': None})
+    elif shape == 'estimate_then_estimate':
+        steps[0].update({'mode': 'estimate', 'max_iterations': 1000})
+        steps[1].update({'mode': 'estimate', 'change_init': None})
+    elif shape == 'estimate_change_quick':
+        steps[0].update({'mode': 'estimate', 'max_iterations': 1000})
+        if steps[1]['change_init'] is None:
+            steps[1]['change_init'] = {nm: round(float(0.5 * (ctx['startd'][nm] + ctx['c']['x'][j])), 4) for j, nm in enumerate(free)}  # feasible: both ends are
+        steps[1].update({'mode': 'quick_estimate', 'bootstrap': 0})
+    return steps
+
+
+def _history_run(ctx):
+    """all steps in ONE process on ONE object; the post-conditions are applied after EVERY estimation. No verdict is
+    taken after an exception out of the library (engine state)."""
+    from ..gen import c07_problems as gp
+    import biogeme.biogeme as bio
+
+    case, spec, data, free, opts = ctx['case'], ctx['spec'], ctx['data'], ctx['free'], ctx['opts']
+    rec = Rec(case)
+    steps = _history(case, ctx)
+    rec.info['steps'] = []
+    db, formulas, made = gp.build(spec, data)
+    if opts['save_iterations']:
+        import tempfile
+
+        os.chdir(tempfile.mkdtemp(prefix=f'c07_{case["i"]}_', dir=os.environ.get('BIOMON_WORKDIR', os.getcwd())))
+    try:
+        bg = bio.BIOGEME(db, formulas, parameters=_parameters(dict(opts, max_iterations=steps[0]['max_iterations']), steps[0]['algo']))
+        bg.modelName = f'c07_{case["i"]}'
+    except BaseException as e:  # noqa
+        rec.violation(f'C07/constructor-raises-{type(e).__name__}', str(e), {'case': case})
+        return rec.out()
+    rec.c('history_cases')
+    expected = dict(ctx['startd'])  # fresh object: the declared starting values
+    prev = prev_est = None
+    for k, st in enumerate(steps):
+        algo, mode = st['algo'], st['mode']
+        tag = f'history step {k + 1}/{len(steps)}: ' + ' -> '.join(
+            f'{s["algo"]}/{s["mode"]}' + (f'[maxiter={s["max_iterations"]}]' if s['max_iterations'] < 10 else '')
+            + (f'[bootstrap={s["bootstrap"]}]' if s['bootstrap'] else '') + ('[after change_init_values]' if s['change_init'] else '')
+            for s in steps[:k + 1])
+        wit = _witness_base(ctx, algo, mode)
+        wit['history'] = steps[:k + 1]
+
+        def viol(mech, msg, **kw):
+            w = dict(wit)
+            w.update(kw)
+            rec.violation('C07/' + mech, f'[{tag}] {msg}', w)
+
+        del _CALLS[:]
+        try:
+            # between two estimations everything goes through the public parameters / public methods
+            bg.optimization_algorithm = algo
+            bg.max_iterations = st['max_iterations']
+            if st['change_init'] is not None:
+                bg.change_init_values(dict(st['change_init']))
+                expected = dict(st['change_init'])
+                rec.c('history_steps_after_change_init_values')
+            if st['bootstrap']:
+                bg.bootstrap_samples = st['bootstrap']
+                res = bg.estimate(run_bootstrap=True)
+                rec.c('history_steps_with_bootstrap')
+            else:
+                res = getattr(bg, mode)()
+        except BaseException as e:  # noqa
+            import traceback
+
+            _classify_exception(rec, viol, e, algo, mode, traceback.format_exc())
+            rec.c('history_stopped_by_exception')
+            break
+        rec.c('history_steps')
+        rec.c(f'history_step_{mode}')
+        if prev is not None:
+            rec.c(f'history_{prev["mode"]}_then_{mode}')
+            if prev['algo'] != algo:
+                rec.c('history_steps_with_algorithm_changed')
+            if prev['max_iterations'] != st['max_iterations']:
+                rec.c('history_steps_with_max_iterations_changed')
+        calls = list(_CALLS)
+        if opts['save_iterations'] and mode == 'estimate' and k > 0:
+            expected = None  # documented: the saved-iteration file replaces the starting values
+        step = {'tag': tag, 'wit': wit, 'expected_start': expected, 'max_iterations': st['max_iterations'], 'inject_nan_hessian': False,
+                'key': ['history', steps[:k + 1]], 'probe_fresh': not opts['save_iterations'], 'info': {}}
+        _judge(rec, ctx, bg, formulas, made, res, calls, algo, mode, step)
+        rec.info['steps'].append(step['info'])
+        # where does a re-estimation start when nothing is said? recorded, no verdict (the statement does not fix it)
+        if k > 0 and st['change_init'] is None and calls and calls[0].get('init_betas') is not None:
+            names = list(res.data.betaNames)
+            act = dict(zip(names, calls[0]['init_betas']))
+            if all(act[nm] == float(ctx['startd'][nm]) for nm in free):
+                rec.c('history_restart_from_the_first_declared_start')
+            elif prev_est is not None and all(act[nm] == prev_est.get(nm) for nm in free):
+                rec.c('history_restart_from_the_previous_estimates')
+            else:
+                rec.c('history_restart_from_another_point')
+        prev_est = dict(zip(res.data.betaNames, (float(v) for v in res.data.betaValues)))
+        expected = None  # after an estimation the statement does not say where the next one starts (unless change_init_values)
+        prev = st
     return rec.out()
 
 
@@ -729,6 +962,11 @@ def finalize(cov, tier):
               'weights_on', 'cases_with_iteration_limit', 'cases_with_a_binding_bound_at_exactly_0'):
         if cov.get(k, 0) == 0:
             out.append(f'monitor / situation never observed: {k}')
+    for k in ('history_steps', 'history_quick_estimate_then_estimate', 'history_estimate_then_estimate', 'history_estimate_then_quick_estimate',
+              'history_steps_after_change_init_values', 'history_steps_with_bootstrap', 'history_steps_with_algorithm_changed',
+              'history_steps_with_max_iterations_changed'):
+        if cov.get(k, 0) == 0:
+            out.append(f'history situation never observed: {k}')
     runs = cov.get('runs_estimate', 0) + cov.get('runs_quick_estimate', 0)
     if cov.get('run_timeouts', 0) > max(3, 0.01 * runs):
         out.append(f'{cov["run_timeouts"]} estimations hit the per-run watchdog ({runs} completed)')
